@@ -5,7 +5,8 @@ from vlib import Work, run_vh, run_tlc, tlc_must_pass, read_ndjson, MachineryErr
 from .c03 import validate
 
 T_TAGS = {"handler-ran-without-a-match", "not-transparent"}
-P_TAGS = {"custom-operand-rejected", "compiled-operand-differs", "handler-calls-differ-from-dispatches", "evaluation-count", "returned-value-not-used", "result-aliased", "result-aliased-in-process-text"}
+P_TAGS = {"custom-operand-rejected", "compiled-operand-differs", "handler-calls-differ-from-dispatches", "evaluation-count", "returned-value-not-used", "result-aliased", "result-aliased-in-process-text",
+          "handler-value-not-used-by-copy", "handler-object-changed-by-script", "handler-received-foreign-groups"}
 
 
 def run(rep, tier, seed):
@@ -34,8 +35,9 @@ def run(rep, tier, seed):
             out.write(open(w.path("corpus.ndjson")).read()); out.write(open(w.path("gen.ndjson")).read())
         t = run_vh(["c17-transparent", "-in", w.path("in.ndjson"), "-out", w.path("t.ndjson")], env={"VERIF_SEED": str(seed)}, timeout=3000)
         stats["transparent"] = json.loads(t.stdout.strip().splitlines()[-1])
+        run_vh(["c17-copy", "-out", w.path("c.ndjson")])
         with open(evall, "w") as out:
-            out.write(open(w.path("p.ndjson")).read()); out.write(open(w.path("t.ndjson")).read())
+            out.write(open(w.path("p.ndjson")).read()); out.write(open(w.path("t.ndjson")).read()); out.write(open(w.path("c.ndjson")).read())
         j = validate(w, evall)
         rows = read_ndjson(evall)
         for b in j["bad"]:
@@ -44,6 +46,11 @@ def run(rep, tier, seed):
             e = rows[b["i"] - 1]
             why = sorted(set(b["why"]) & (T_TAGS | P_TAGS))
             if not why:
+                continue
+            if e["ev"] == "c17c":
+                what = "%s: `%s` with a handler that returns one %s object every time -> %s (expected %s); the handler's object afterwards %s (expected %s); texts received %s" % (
+                    "/".join(why), e["src"], e["kind"], e["got"], e["want"], e["handlerObject"], e["handlerWant"], e["texts"])
+                rep.violation({"key": "copy-%s-%s" % (e["kind"], hashlib.md5(e["src"].encode()).hexdigest()[:6]), "kind": "c17", "what": what, "features": ["c17"] + why, "replay": {"event": e, "why": why}})
                 continue
             if e["ev"] == "c17p":
                 what = "%s: `%s` with custom syntaxes -> %s %s; with the values written out (`%s`) -> %s; compiled %s; run events %s" % (
